@@ -1,7 +1,7 @@
 #!/bin/bash
 # sweep: every registered check, several seeds; prints one summary line per (prop, seed)
 seeds=${SEEDS:-"1 2 3"}
-props=${PROPS:-"C10 C11 C12 C13 C14 C15 C16 C17 C18 C26"}
+props=${PROPS:-"C06 C10 C11 C12 C13 C14 C15 C16 C17 C18 C19 C20 C26"}
 for s in $seeds; do for p in $props; do
   out=$(VERIF_SEED=$s timeout 1500 /venv/bin/python verif.py $p --tier quick 2>&1)
   rc=$?
